@@ -305,7 +305,8 @@ def run_mean(case):
     pts = np.array([MEAN_POINTS[i] for i in case["idx"]])
     v = []
     n = 0
-    for weights in (None, np.array([2.0, 3.0, 5.0][: len(pts)])):
+    base_w = np.array([2.0, 3.0, 5.0][: len(pts)])
+    for weights in (None, base_w, base_w * 1e-170, base_w * 1e160):
         xyz = ref.to_xyz(pts[:, 0], pts[:, 1])
         w = np.ones(len(pts)) if weights is None else weights
         mean = (xyz * w[:, None].astype(np.longdouble)).sum(axis=0) / w.sum()
